@@ -16,13 +16,25 @@
 (*           ok = admitted; otherwise sys = block type is SystemFlow,      *)
 (*           rule = 1-based index of the reported rule (0 = none / unknown)*)
 (*           mt = its metric type, vnum/vden = the reported value          *)
-(*   exit  id                Exit() of an admitted entry                   *)
+(*   exit  id, err           THE completion of an admitted entry: Exit()   *)
+(*                           (err = FALSE) or Exit(WithError(e)) (err =    *)
+(*                           TRUE); the completion also carries an error   *)
+(*                           when a `trace` event marked the open entry    *)
+(*   trace id                api.TraceError / entry.SetError on an OPEN    *)
+(*                           entry: nothing the gate reads changes now     *)
+(*   late  id, how           Exit(WithError) / TraceError on an entry that *)
+(*                           has already completed: changes nothing        *)
 (*   tick  t                 the clock moved to t                          *)
 (*                                                                         *)
 (* The decision is judged by the PROPERTY: blocked iff MustBlock; a block  *)
 (* must be a system block naming ONE OF the violated rules (the code       *)
 (* iterates a map: which one is an unlogged choice) with the value that    *)
 (* rule compares.  The abstract state follows the OBSERVED outcome.        *)
+(* Every completion - plain, with an error, TraceError then Exit - updates *)
+(* the aggregate through SystemGateOps!OnCompleteE: completion count, RT   *)
+(* sum, min RT and per-bucket peak include them all, so every later        *)
+(* decision (and every reported avg-RT value) is judged against an         *)
+(* aggregate that contains the completions that carried an error.          *)
 (***************************************************************************)
 EXTENDS SystemGateOps, TLC, Json
 
@@ -34,7 +46,7 @@ VARIABLES
     rs,       \* rule list in force
     ref,      \* inbound aggregate
     conc,     \* inbound in-flight gauge
-    open,     \* id -> [ty, b, start] of admitted, not yet exited entries
+    open,     \* id -> [ty, b, start, terr] of admitted, not yet exited entries (terr: an error was traced on it)
     load, cpu,
     g,        \* [tr] of the running trace
     failed    \* the running trace already mismatched
@@ -78,7 +90,10 @@ TRules ==
 \* what the property demands of this request, for the report
 Expected(ty, q) ==
     LET V == ViolatedIdxQ(rs, q, load, cpu) IN
-    [block |-> (ty = "in" /\ V # {}), violated |-> V, qps |-> q.qps, avgrt |-> q.avgrt, conc |-> q.conc, over |-> q.over]
+    [block |-> (ty = "in" /\ V # {}), violated |-> V, qps |-> q.qps, avgrt |-> q.avgrt, conc |-> q.conc, over |-> q.over,
+     \* the inbound aggregate behind those readings (all completions, of which `errs` carried an error)
+     compl |-> Completes(ref, now), rtsum |-> RtSum(ref, now), errs |-> Errors(ref, now),
+     minrt |-> MinRt(ref, now), peak |-> Peak(ref, now)]
 
 \* a block must be a system block that names one of the violated rules and reports the value that rule compares
 BlockOK(e, q) ==
@@ -96,7 +111,7 @@ TEnter ==
                Expected(Ev.ty, q))
     /\ IF Ev.ok
          THEN /\ open' = [i \in DOMAIN open \cup {Ev.id} |->
-                             IF i = Ev.id THEN [ty |-> Ev.ty, b |-> Ev.b, start |-> now] ELSE open[i]]
+                             IF i = Ev.id THEN [ty |-> Ev.ty, b |-> Ev.b, start |-> now, terr |-> FALSE] ELSE open[i]]
               /\ IF Ev.ty = "in" THEN ref' = OnPass(ref, now, Ev.b) /\ conc' = conc + 1
                                  ELSE UNCHANGED <<ref, conc>>
          ELSE UNCHANGED <<open, ref, conc>>       \* a blocked request leaves the gate's inputs untouched
@@ -107,11 +122,22 @@ TExit ==
     /\ IsEvent("exit")
     /\ IF Ev.id \in DOMAIN open
          THEN /\ LET e == open[Ev.id] IN
-                 IF e.ty = "in" THEN ref' = OnComplete(ref, now, now - e.start, e.b) /\ conc' = conc - 1
+                 IF e.ty = "in" THEN /\ ref' = OnCompleteE(ref, now, now - e.start, e.b, (Has(Ev, "err") /\ Ev.err) \/ e.terr)
+                                     /\ conc' = conc - 1
                                 ELSE UNCHANGED <<ref, conc>>
               /\ open' = [i \in DOMAIN open \ {Ev.id} |-> open[i]]
          ELSE UNCHANGED <<ref, conc, open>>
     /\ UNCHANGED <<now, rs, load, cpu, g, failed>>
+
+\* an error traced on an open entry is carried by its completion; on any other id nothing changes
+TTrace ==
+    /\ IsEvent("trace")
+    /\ open' = [i \in DOMAIN open |-> IF i = Ev.id THEN [open[i] EXCEPT !.terr = TRUE] ELSE open[i]]
+    /\ UNCHANGED <<now, rs, ref, conc, load, cpu, g, failed>>
+\* an entry completes once: a second Exit / a TraceError after the completion changes nothing
+TLate ==
+    /\ IsEvent("late")
+    /\ UNCHANGED <<now, rs, ref, conc, open, load, cpu, g, failed>>
 
 TTick ==
     /\ IsEvent("tick")
@@ -122,6 +148,6 @@ TTick ==
 
 TInit == /\ l = 1 /\ now = 0 /\ rs = << >> /\ ref = << >> /\ conc = 0 /\ open = << >>
          /\ load = NoSample /\ cpu = NoSample /\ g = [tr |-> 0] /\ failed = FALSE
-TNext == TNew \/ TLoad \/ TCpu \/ TRules \/ TEnter \/ TExit \/ TTick
+TNext == TNew \/ TLoad \/ TCpu \/ TRules \/ TEnter \/ TExit \/ TTrace \/ TLate \/ TTick
 TSpec == TInit /\ [][TNext]_tvars
 =============================================================================
